@@ -366,6 +366,7 @@ type rConnOpts struct {
 	QueueSize       int
 	Logger          logger.Logger // nil: the no-op logger
 	Trace           bool          // hsms.WithTraceTraffic(true): every frame sent / received is handed to the logger
+	Equip           bool          // hsmsss.WithEquipRole(): auto-S9F9 on T3 expiry
 }
 
 func rNewConn(p *rPeer, o rConnOpts) (hsmsss.Connection, error) {
@@ -392,6 +393,11 @@ func rNewConn(p *rPeer, o rConnOpts) (hsmsss.Connection, error) {
 		copt(hsms.WithSenderQueueSize(o.QueueSize)), copt(hsms.WithLogger(rNopLogger{})))
 	if err != nil {
 		return nil, err
+	}
+	if o.Equip {
+		if err := cfg.ApplyOptions(hsmsss.WithEquipRole()); err != nil {
+			return nil, err
+		}
 	}
 	if o.Logger != nil {
 		if err := cfg.ApplyOptions(copt(hsms.WithLogger(o.Logger)), copt(hsms.WithTraceTraffic(o.Trace))); err != nil {
